@@ -154,6 +154,8 @@ var funcSpecs = []funcSpec{
 	{rel: "internal/format", name: "(*Stanza).Marshal", abstract: marshalAbstract, opaque: marshalOpaque, threaded: marshalThreaded},
 	{rel: "internal/format", name: "(*Header).MarshalWithoutMAC", abstract: marshalAbstract, opaque: marshalOpaque, threaded: marshalThreaded},
 	{rel: "internal/format", name: "(*Header).Marshal", abstract: append([]string{"format.EncodeToString"}, marshalAbstract...), opaque: marshalOpaque, threaded: marshalThreaded},
+	{rel: "cmd/age", name: "(*lazyOpener).Write", abstract: []string{"os.Create"}, opaque: map[string]string{"os.File": "φ"}},
+	{rel: "cmd/age", name: "(*lazyOpener).Close", opaque: map[string]string{"os.File": "φ"}},
 	{rel: "", name: "ParseRecipients", abstract: []string{"age.ParseX25519Recipient"}, opaque: map[string]string{"Recipient": "κ", "X25519Recipient": "κ"}, errInts: true},
 }
 
